@@ -324,6 +324,34 @@ func craftedInputs() [][]byte {
 		}
 		out = append(out, b)
 	}
+	// one long untyped list referred to ALTERNATELY from slice fields of two different types (index 171):
+	// a list is converted once per destination type, not once per reference
+	{
+		b := []byte{0x57, 0x58, 0xd4, 12000 >> 8, 12000 & 0xff}
+		for i := 0; i < 12000; i++ {
+			b = append(b, byte(0x90+i%40))
+		}
+		b = append(b, hspecHx("C x09 TwoNarrow x92 x04 wide x05 plain")...)
+		for i := 0; i < 8000; i++ {
+			b = append(b, 0x60, 0x51, 0x91, 0x51, 0x91)
+		}
+		b = append(b, 'Z')
+		out = append(out, b)
+	}
+	// 2000 NESTED fixed-length lists, each declaring exactly the number of octets left behind its header,
+	// then nulls (index 172): every declaration is credible on its own for a reader that reports Len()
+	{
+		const total, levels = 65536, 2000
+		var b []byte
+		for i := 0; i < levels; i++ {
+			left := total - 6*(i+1) // (the five-octet int form keeps every header the same size)
+			b = append(b, 0x58, 'I', byte(left>>24), byte(left>>16), byte(left>>8), byte(left))
+		}
+		for len(b) < total {
+			b = append(b, 'N')
+		}
+		out = append(out, b)
+	}
 	return out
 }
 
